@@ -13,16 +13,16 @@ TEXT = {
  "C07": ("model_checking", "explicit-state search over event histories (full tree + de-duplicated BFS) replayed on the real LAN object, with a wire monitor (I1..I5) evaluated in every state; long session > 4096 / > 65536 packets", "explicit-state search over operation histories with a wire invariant monitor"),
  "C08": ("model_checking", "all 7^r reply-delay patterns for r=1..4 vs. a reference model of the retry contract; every single fault and ordered pair of faults incl. cancellation at every interval, from 4 start states, followed by an honest exchange", "exhaustive schedule / fault-sequence enumeration vs. reference model"),
  "C09": ("fault_enumeration", "full product of per-field alphabets of V2 and V3 replies at every protocol phase through LAN.send / authenticate / _send_command / refresh; outcome classes only", "grammar-based exhaustive fault enumeration"),
- "C10": ("exploration", "all setpoints x modes x units, all fan and humidity bytes, all flag combinations per byte, single-field sweeps and a pairwise design through apply(); vendor-layout decode of the received 0x40 body must equal the request", "bounded exhaustive input enumeration vs. vendor bit layout"),
+ "C10": ("exploration", "all setpoints x modes x units, all fan and humidity bytes, all flag combinations per byte, single-field sweeps and a pairwise design through apply(), also in 7 contexts incl. settings applied while a refresh() of the same object is in flight; vendor-layout decode of the received 0x40 body must equal the request", "bounded exhaustive input enumeration vs. vendor bit layout"),
  "C11": ("exploration", "all temperature bytes x tenths x sensor x unit, 32x32 setpoint codes, all 256 values of every flag byte, all lengths, both check styles, reported by the simulated device to a fresh client", "bounded exhaustive input enumeration vs. vendor bit layout"),
  "C12": ("model_checking", "every command class with every parameter value fed to an independent device-side parser; long mixed operation histories on the wire with injected retransmissions and several initial counters for the message-id rule", "exhaustive input enumeration + long operation histories against an independent frame parser"),
  "C13": ("fault_enumeration", "every byte position x all 255 substitutes of every response kind, with and without checksum fix-up; independent must-drop oracle; state and capability attributes must be unchanged", "exhaustive single-byte fault enumeration with an independent accept/drop oracle"),
  "C14": ("fault_enumeration", "every truncation, every count/size field value, every response id x short bodies, every group, alone and mixed with good frames, for all five operations", "exhaustive fault enumeration of validating-but-malformed responses"),
  "C15": ("exploration", "every known capability id x value, all sizes, all ordered lists <= 3 over 24 shapes, rotations/reversals of long lists; differential oracle list == merge of singles; every split point on the wire", "metamorphic bounded-exhaustive enumeration (list vs. merge of singles, one page vs. every split)"),
  "C16": ("model_checking", "explicit-state search over setter/apply/refresh/self-clean histories for every capability profile against a pending-set + device-store reference model", "explicit-state search over operation histories vs. reference model"),
- "C17": ("exploration", "ids x ports x serials x 256 type bytes x case x reported-IP x V2/V3 x listening port through discover()/discover_single() on a simulated broadcast with probe validation", "bounded exhaustive input enumeration on the simulated broadcast"),
+ "C17": ("exploration", "ids x ports x serials x 256 type bytes x case x reported-IP x V2/V3 x listening port through discover()/discover_single() on a simulated broadcast with probe validation, also with debug logging on (thorough: every port 1..65535, id bit/byte walk, full product of the per-axis alphabets)", "bounded exhaustive input enumeration on the simulated broadcast"),
  "C18": ("model_checking", "all distinct arrival orders of the reply multiset for configurations of <= 4 hosts (good or one of 6 bad classes, 1..3 copies)", "exhaustive enumeration of datagram arrival orders"),
- "C19": ("fault_enumeration", "all 1000 answer-sequence flows over {ok, timeout, HTTP 500, API error} for the three requests, token-list shapes with near misses, both byte orders; reference server verifies every request; auto-connect discovery", "exhaustive fault-sequence enumeration against a reference server"),
+ "C19": ("fault_enumeration", "all answer-sequence flows (quick: 17 patterns per request, 4913 flows; thorough: every sequence of <= 2 timeouts + each of 10 terminal answers, 29791 flows) over {ok, timeout, HTTP 500/502/503/504/404/302, API error, dropped connection, undecodable body} for the three requests, token-list shapes with near misses, both byte orders; reference server verifies every request; auto-connect discovery", "exhaustive fault-sequence enumeration against a reference server"),
  "C20": ("exploration", "every writable setting, every enum member name (4 letter cases) and value, raw fan integers, number and boolean spellings, all pairs, 4 reported states, invalid catalogue; in-process CLI on the simulated network", "bounded exhaustive input enumeration against an independent interpreter of the README"),
 }
 NOTE = "real code from /repo's working tree on a virtual-time event loop with an in-memory network; trusts the AES block primitive, hashlib and the hand-transcribed vendor layouts / reference models in mc/ref*.py; bounds are printed in the evidence file"
